@@ -39,6 +39,7 @@ import (
 	"github.com/gogo/protobuf/proto"
 	"github.com/pingcap/kvproto/pkg/metapb"
 	"github.com/pingcap/kvproto/pkg/pdpb"
+	"github.com/tikv/pd/pkg/grpcutil"
 	"go.etcd.io/etcd/clientv3"
 	"google.golang.org/grpc"
 	"google.golang.org/grpc/codes"
@@ -74,6 +75,9 @@ type RStep struct {
 	Rnd uint64 `json:"rnd,omitempty"`
 	N   int    `json:"n,omitempty"` // tso: count
 	P   int    `json:"p,omitempty"` // PutClusterConfig payload: 0 own cluster id, 1 foreign id, 2 zero id, 3 no cluster at all
+	// Via 1: the request is sent to the FOLLOWER of a 2-member cluster with the pd-forwarded-host
+	// metadata naming the leader (property "forwarded" only), 0: directly to the leader.
+	Via int `json:"via,omitempty"`
 }
 
 type RefCase struct {
@@ -209,6 +213,8 @@ type rstream struct {
 type refRun struct {
 	f       *liveFix
 	cli     pdpb.PDClient
+	fcli    pdpb.PDClient // follower (forwarded route), nil on the 1-member fixture
+	leader  string        // the leader's client URL (forwarded-host metadata)
 	cid     uint64
 	version uint64 // model of the served epoch version of the region
 	gcSafe  uint64
@@ -227,8 +233,16 @@ func (r *refRun) closeStreams() {
 	r.streams = map[string]*rstream{}
 }
 
-func (r *refRun) stream(kind string, idx int) (*rstream, bool, error) {
-	key := fmt.Sprintf("%s-%d", kind, idx)
+// route: the client and context of a step's route.
+func (r *refRun) route(via int, ctx context.Context) (pdpb.PDClient, context.Context) {
+	if via == 1 && r.fcli != nil {
+		return r.fcli, grpcutil.BuildForwardContext(ctx, r.leader)
+	}
+	return r.cli, ctx
+}
+
+func (r *refRun) stream(kind string, idx, via int) (*rstream, bool, error) {
+	key := fmt.Sprintf("%s-%d-via%d", kind, idx, via)
 	if s := r.streams[key]; s != nil && !s.dead {
 		return s, false, nil
 	}
@@ -236,11 +250,12 @@ func (r *refRun) stream(kind string, idx int) (*rstream, bool, error) {
 		s.cancel()
 	}
 	ctx, cancel := context.WithCancel(context.Background())
+	cli, ctx := r.route(via, ctx)
 	s := &rstream{kind: kind, cancel: cancel, ch: make(chan recvItem, 256)}
 	var recv func() (interface{}, error)
 	switch kind {
 	case "tso":
-		st, err := r.cli.Tso(ctx)
+		st, err := cli.Tso(ctx)
 		if err != nil {
 			cancel()
 			return nil, true, err
@@ -249,7 +264,7 @@ func (r *refRun) stream(kind string, idx int) (*rstream, bool, error) {
 		s.done = st.CloseSend
 		recv = func() (interface{}, error) { return st.Recv() }
 	case "hb":
-		st, err := r.cli.RegionHeartbeat(ctx)
+		st, err := cli.RegionHeartbeat(ctx)
 		if err != nil {
 			cancel()
 			return nil, true, err
@@ -258,7 +273,7 @@ func (r *refRun) stream(kind string, idx int) (*rstream, bool, error) {
 		s.done = st.CloseSend
 		recv = func() (interface{}, error) { return st.Recv() }
 	default:
-		st, err := r.cli.SyncRegions(ctx)
+		st, err := cli.SyncRegions(ctx)
 		if err != nil {
 			cancel()
 			return nil, true, err
@@ -317,8 +332,17 @@ func (r *refRun) header(st RStep) (*pdpb.RequestHeader, bool) {
 	}
 }
 
+// isMismatch: the refusal. On the direct route it is the status FailedPrecondition. On the forwarded
+// route a unary RPC relays the leader's status unchanged, but the follower's Tso / RegionHeartbeat
+// proxies return the leader's status wrapped (errors.WithStack), which reaches the caller as code
+// Unknown with the original text "rpc error: code = FailedPrecondition desc = mismatch cluster id ..."
+// inside.
 func isMismatch(err error) bool {
-	return err != nil && status.Code(err) == codes.FailedPrecondition && strings.Contains(err.Error(), "mismatch cluster id, need")
+	if err == nil || !strings.Contains(err.Error(), "mismatch cluster id, need") {
+		return false
+	}
+	return status.Code(err) == codes.FailedPrecondition ||
+		(status.Code(err) == codes.Unknown && strings.Contains(err.Error(), "code = FailedPrecondition"))
 }
 
 func isEnv(err error) bool {
@@ -523,7 +547,7 @@ func (r *refRun) unary(st RStep, what string) error {
 	defer cancel()
 	var err error
 	var rh *pdpb.ResponseHeader
-	c := r.cli
+	c, ctx := r.route(st.Via, ctx)
 	switch st.RPC {
 	case "Bootstrap":
 		var resp *pdpb.BootstrapResponse
@@ -693,7 +717,7 @@ func (r *refRun) unary(st RStep, what string) error {
 
 func (r *refRun) tso(st RStep, what string) error {
 	h, right := r.header(st)
-	s, fresh, err := r.stream("tso", st.S)
+	s, fresh, err := r.stream("tso", st.S, st.Via)
 	if err != nil {
 		return errInconclusive
 	}
@@ -742,7 +766,7 @@ func (r *refRun) servedVersion() uint64 {
 
 func (r *refRun) heartbeat(st RStep, what string) error {
 	h, right := r.header(st)
-	s, fresh, err := r.stream("hb", st.S)
+	s, fresh, err := r.stream("hb", st.S, st.Via)
 	if err != nil {
 		return errInconclusive
 	}
@@ -781,6 +805,9 @@ func (r *refRun) heartbeat(st RStep, what string) error {
 		s.served++
 		return nil
 	}
+	if st.Via == 1 && r.fcli != nil {
+		return r.forwardedWrongHeartbeat(s, req, v, what)
+	}
 	// half-close: a handler that did not refuse the request goes on, reads EOF and ends the stream
 	// cleanly; a handler that refused it ends the stream with the refusal. No timing involved.
 	s.done()
@@ -798,9 +825,62 @@ func (r *refRun) heartbeat(st RStep, what string) error {
 	return r.judge(what, false, it.err, false)
 }
 
+// forwardedWrongHeartbeat: on the forwarded route the follower relays requests to the leader on a
+// second stream and learns about the leader's refusal asynchronously; it hands it to the caller
+// when it handles the caller's NEXT request (RegionHeartbeat's forwarding branch polls its error
+// channel once per request). The same wrong-id heartbeat is therefore repeated until the refusal
+// comes back. What decides is the leader's state: a heartbeat that was applied shows in the
+// served region at once.
+func (r *refRun) forwardedWrongHeartbeat(s *rstream, req *pdpb.RegionHeartbeatRequest, v uint64, what string) error {
+	deadline := time.Now().Add(20 * time.Second)
+	for {
+		it, got := s.next(true, 10*time.Millisecond)
+		if sv := r.servedVersion(); sv != r.version {
+			s.dead = true
+			return fmt.Errorf("%s carries a different cluster id (server has %d) but was applied by the leader: the served region went from version %d to %d", what, r.cid, r.version, sv)
+		}
+		if got {
+			s.dead = true
+			if it.err == io.EOF {
+				return fmt.Errorf("%s carries a different cluster id (server has %d) and the stream ended cleanly", what, r.cid)
+			}
+			return r.judgeForwardedHeartbeat(what, it.err)
+		}
+		if time.Now().After(deadline) {
+			s.dead = true
+			return errInconclusive
+		}
+		if err := s.send(req); err != nil {
+			// the follower has already ended the stream: the error is on its way
+			if it, got := s.next(true, 5*time.Second); got {
+				s.dead = true
+				if sv := r.servedVersion(); sv != r.version {
+					return fmt.Errorf("%s carries a different cluster id (server has %d) but was applied by the leader: the served region went from version %d to %d", what, r.cid, r.version, sv)
+				}
+				return r.judgeForwardedHeartbeat(what, it.err)
+			}
+			s.dead = true
+			return errInconclusive
+		}
+	}
+}
+
+// judgeForwardedHeartbeat: how the leader's refusal of a proxied heartbeat reaches the caller depends
+// on where the follower notices it: from its receiving goroutine (the leader's status, wrapped:
+// Unknown "... code = FailedPrecondition desc = mismatch cluster id ...") or from its next Send on the
+// stream the leader has already ended (gRPC reports io.EOF for that; the follower returns it wrapped:
+// Unknown "EOF"). Both are the refusal; the leader's unchanged state is checked by the caller.
+func (r *refRun) judgeForwardedHeartbeat(what string, err error) error {
+	if err != nil && status.Code(err) == codes.Unknown && strings.HasSuffix(err.Error(), "desc = EOF") {
+		r.info.Class("forwarded-hb-refusal-seen-as-EOF")
+		return nil
+	}
+	return r.judge(what, false, err, false)
+}
+
 func (r *refRun) sync(st RStep, what string) error {
 	h, right := r.header(st)
-	s, fresh, err := r.stream("sync", st.S)
+	s, fresh, err := r.stream("sync", st.S, st.Via)
 	if err != nil {
 		return errInconclusive
 	}
@@ -809,6 +889,19 @@ func (r *refRun) sync(st RStep, what string) error {
 		Member: &pdpb.Member{Name: fmt.Sprintf("verif-follower-%d", st.S), MemberId: uint64(7000 + st.S), ClientUrls: []string{"http://127.0.0.1:9"}}}
 	if err := s.send(req); err != nil {
 		return errInconclusive
+	}
+	if right && st.Via == 1 && r.fcli != nil {
+		// SyncRegions is not forwarded: the follower's own region syncer answers (it checks the same
+		// cluster id) and may have nothing to send. Only a refusal would be wrong.
+		if it, got := s.next(true, 50*time.Millisecond); got {
+			s.dead = true
+			if isMismatch(it.err) {
+				return r.judge(what, true, it.err, false)
+			}
+			return nil
+		}
+		s.served++
+		return nil
 	}
 	if !right {
 		s.done() // see heartbeat: EOF after the request tells "served" from "refused" without timing
@@ -854,6 +947,14 @@ func runRefusal(c RefCase) (vkit.Info, error) {
 	}
 	f.cases++
 	r := &refRun{f: f, cli: pdpb.NewPDClient(f.conn), cid: f.svr.ClusterID(), streams: map[string]*rstream{}, info: &info}
+	err = runProgram(f, r, c, &info)
+	return info, err
+}
+
+// runProgram executes a request program on a bootstrapped fixture (1-member: property refusal;
+// leader of the 2-member cluster: property forwarded).
+func runProgram(f *liveFix, r *refRun, c RefCase, info *vkit.Info) error {
+	r.info = info
 	defer r.closeStreams()
 	r.version = r.servedVersion()
 	r.meta = f.refMeta
@@ -874,11 +975,11 @@ func runRefusal(c RefCase) (vkit.Info, error) {
 			if verr == errInconclusive {
 				f.broken = true
 				info.Inconclusive = true
-				return info, nil
+				return nil
 			}
 			if verr != nil {
 				f.refReady = false
-				return info, verr
+				return verr
 			}
 			continue
 		}
@@ -886,7 +987,7 @@ func runRefusal(c RefCase) (vkit.Info, error) {
 		if err != nil {
 			f.broken = true
 			info.Inconclusive = true
-			return info, nil
+			return nil
 		}
 		if !right {
 			nWrong++
@@ -958,24 +1059,24 @@ func runRefusal(c RefCase) (vkit.Info, error) {
 		if verr == errInconclusive {
 			f.broken = true
 			info.Inconclusive = true
-			return info, nil
+			return nil
 		}
 		if verr != nil {
 			f.refReady = false // next case starts from a freshly bootstrapped cluster
-			return info, verr
+			return verr
 		}
 	}
 	if verr := r.identity("end of the program"); verr != nil {
 		if verr == errInconclusive {
 			f.broken = true
 			info.Inconclusive = true
-			return info, nil
+			return nil
 		}
 		f.refReady = false
-		return info, verr
+		return verr
 	}
 	info.NonTrivial = nRight > 0 && nWrong > 0
-	return info, nil
+	return nil
 }
 
 func idClass(right bool) string {
